@@ -191,6 +191,12 @@ class _EpydocLinker(DocstringLinker):
 
         # Check if 'identifier' is the fullName of an object.
         target = self.obj.system.objForFullName(identifier)
+        if target is None:
+            # Or the fullName it had before it was moved (re-exported).
+            try:
+                target = self.obj.system.find_object(identifier)
+            except LookupError:
+                target = None
         if target is not None:
             return target
 
